@@ -82,15 +82,18 @@ def to_input(t, mv, rng, form, cache, env, top=True):
 
 
 def other_class_source(t, mv, rng, cache, env):
-    """An xobject array of another class (other axis order, some extents static instead of dynamic) holding mv."""
+    """An xobject array of another class (other axis order, some extents static instead of dynamic or the reverse) holding mv."""
     nd = len(t["dims"])
     order2 = list(range(nd))
     rng.shuffle(order2)
     from xv.typegen import _uid
-    t2 = dict(t, n=t["n"] + f"alt{next(_uid)}", ord=order2, dims=[s_ if rng.random() < 0.5 else d for s_, d in zip(mv.shape, t["dims"])])
+    t2 = dict(t, n=t["n"] + f"alt{next(_uid)}", ord=order2, dims=[rng.choice([s_, d, None]) for s_, d in zip(mv.shape, t["dims"])])
     cls2 = build(t2, cache)
     arg = cls2(plain(t2, mv, rng, np_scalars=True), _buffer=rng.choice([env.buf, None]))
     env.repoison()
+    if rng.random() < 0.4:
+        # the same array seen through a view rebuilt from (buffer, offset): its shape was read back from the buffer
+        arg = cls2._from_buffer(arg._buffer, arg._offset)
     return arg
 
 
